@@ -6,7 +6,7 @@ import LolHtml.Model.TokenEdit
 
 namespace LolHtml.Model
 
-/-- The closure built by `Element::into_end_tag_handler` (element.rs:705-737), combined with the
+/-- The closure built by `Element::into_end_tag_handler` (element.rs:697-729), combined with the
 user's `on_end_tag` handlers (`H::combine_handlers`): first the internal handler (rename, install the
 deferred mutations), then the user handlers in registration order. A user end-tag handler is the list
 of API calls it makes. -/
@@ -16,7 +16,7 @@ structure EndTagHandler where
   user : List (List EndTagOp)
 deriving DecidableEq, Repr, Inhabited
 
-/-- Running the combined handler on the end tag (element.rs:716-727). Note that the deferred
+/-- Running the combined handler on the end tag (element.rs:708-720). Note that the deferred
 mutations *replace* whatever mutations the end tag already carries. -/
 def EndTagHandler.run (h : EndTagHandler) (t : EndTag) : EndTag :=
   let t := match h.modifiedName with
@@ -41,11 +41,11 @@ deriving DecidableEq, Repr, Inhabited
 def Element.new (startTag : StartTag) (canHaveContent : Bool) : Element :=
   { startTag := startTag, canHaveContent := canHaveContent }
 
-/-- element.rs:82-84 characters rejected in tag names. -/
+/-- element.rs:82 characters rejected in tag names. -/
 def tagNameForbidden (b : UInt8) : Bool :=
   b == 32 || b == 10 || b == 13 || b == 9 || b == 12 || b == 47 || b == 62
 
-/-- element.rs:77 `tag_name_bytes_from_str` (UTF-8 document); `none` = `Err(TagNameError)`. -/
+/-- element.rs:76 `tag_name_bytes_from_str` (UTF-8 document); `none` = `Err(TagNameError)`. -/
 def tagNameBytesFromStr (name : Bytes) : Option Bytes :=
   match name with
   | [] => none
@@ -54,7 +54,7 @@ def tagNameBytesFromStr (name : Bytes) : Option Bytes :=
     else if name.any tagNameForbidden then none
     else some name
 
-/-- element.rs:111 `end_tag_mutations_mut`: `get_or_insert_with(Mutations::new).mutate()`. -/
+/-- element.rs:109 `end_tag_mutations_mut`: `get_or_insert_with(Mutations::new).mutate()`. -/
 def Element.endTagMutationsMut (e : Element) : MutationsInner :=
   match e.endTagMutations with
   | some m => m.mutate
@@ -66,7 +66,7 @@ def Element.setEndTagMutations (e : Element) (i : MutationsInner) : Element :=
 def Element.setStartTagMutations (e : Element) (i : MutationsInner) : Element :=
   { e with startTag := { e.startTag with mutations := ⟨some i⟩ } }
 
-/-- element.rs:101 `remove_content`. -/
+/-- element.rs:100 `remove_content`. -/
 def Element.removeContent (e : Element) : Element :=
   let st := e.startTag.mutations.mutate
   let e := e.setStartTagMutations { st with contentAfter := [] }
@@ -93,11 +93,11 @@ inductive ElementOp
 deriving DecidableEq, Repr, Inhabited
 
 def Element.apply (e : Element) : ElementOp → Element
-  -- element.rs:258 `before`
+  -- element.rs:253 `before`
   | .before c =>
     let st := e.startTag.mutations.mutate
     e.setStartTagMutations { st with contentBefore := dsPushBack st.contentBefore c }
-  -- element.rs:305 `after_chunk`
+  -- element.rs:302 `after_chunk`
   | .after c =>
     if e.canHaveContent then
       let m := e.endTagMutationsMut
@@ -105,21 +105,21 @@ def Element.apply (e : Element) : ElementOp → Element
     else
       let st := e.startTag.mutations.mutate
       e.setStartTagMutations { st with contentAfter := dsPushFront st.contentAfter c }
-  -- element.rs:359 `prepend_chunk`
+  -- element.rs:357 `prepend_chunk`
   | .prepend c =>
     if e.canHaveContent then
       let e := { e with startTag := e.startTag.setSelfClosingSyntax false }
       let st := e.startTag.mutations.mutate
       e.setStartTagMutations { st with contentAfter := dsPushFront st.contentAfter c }
     else e
-  -- element.rs:415 `append_chunk`
+  -- element.rs:418 `append_chunk`
   | .append c =>
     if e.canHaveContent then
       let e := { e with startTag := e.startTag.setSelfClosingSyntax false }
       let m := e.endTagMutationsMut
       e.setEndTagMutations { m with contentBefore := dsPushBack m.contentBefore c }
     else e
-  -- element.rs:474 `set_inner_content_chunk`
+  -- element.rs:473 `set_inner_content_chunk`
   | .setInnerContent c =>
     if e.canHaveContent then
       let e := { e with startTag := e.startTag.setSelfClosingSyntax false }
@@ -127,35 +127,35 @@ def Element.apply (e : Element) : ElementOp → Element
       let st := e.startTag.mutations.mutate
       e.setStartTagMutations { st with contentAfter := dsPushFront st.contentAfter c }
     else e
-  -- element.rs:530 `replace_chunk`
+  -- element.rs:528 `replace_chunk`
   | .replace c =>
     let e := e.setStartTagMutations (e.startTag.mutations.mutate.replace c)
     if e.canHaveContent then
       let e := e.removeContent
       e.setEndTagMutations e.endTagMutationsMut.remove
     else e
-  -- element.rs:577 `remove`
+  -- element.rs:549 `remove`
   | .remove =>
     let e := e.setStartTagMutations e.startTag.mutations.mutate.remove
     if e.canHaveContent then
       let e := e.removeContent
       e.setEndTagMutations e.endTagMutationsMut.remove
     else e
-  -- element.rs:611 `remove_and_keep_content`
+  -- element.rs:577 `remove_and_keep_content`
   | .removeAndKeepContent =>
     let e := { e with startTag := e.startTag.apply (.mut .remove) }
     if e.canHaveContent then e.setEndTagMutations e.endTagMutationsMut.remove else e
-  -- element.rs:141 `set_tag_name`
+  -- element.rs:135 `set_tag_name`
   | .setTagName name =>
     match tagNameBytesFromStr name with
     | none => e
     | some n =>
       let e := if e.canHaveContent then { e with modifiedEndTagName := some n } else e
       { e with startTag := e.startTag.setNameRaw n }
-  -- element.rs:229 / 235
+  -- element.rs:219 / 225
   | .setAttribute n v => { e with startTag := e.startTag.setAttribute n v }
   | .removeAttribute n => { e with startTag := e.startTag.removeAttribute n }
-  -- element.rs:640 `start_tag()`
+  -- element.rs:599 `start_tag()`
   | .startTag op => { e with startTag := e.startTag.apply op }
   -- element.rs:688 `on_end_tag` (an `Err` and no effect if the element cannot have content)
   | .onEndTag ops =>
@@ -163,7 +163,7 @@ def Element.apply (e : Element) : ElementOp → Element
 
 def Element.applyOps (e : Element) (ops : List ElementOp) : Element := ops.foldl Element.apply e
 
-/-- element.rs:705 `into_end_tag_handler`. -/
+/-- element.rs:697 `into_end_tag_handler`. -/
 def Element.intoEndTagHandler (e : Element) : Option EndTagHandler :=
   if e.endTagMutations.isSome || e.modifiedEndTagName.isSome || !e.endTagHandlers.isEmpty then
     some { modifiedName := e.modifiedEndTagName, mutations := e.endTagMutations,
